@@ -58,6 +58,8 @@ const (
 	c18KTuple
 	c18KFunc
 	c18KFindFn   // the method value <receiver>.Tags.Find
+	c18KTagRec   // a witness tag: elems[0] key, elems[1] value
+	c18KKeyIdx   // a package-level map rule key -> rule, filled once from the table (ki)
 	c18KSlice    // a slice or array built by a composite literal: elems
 	c18KStruct   // a struct built by a composite literal: cl, evaluated in fr
 	c18KMap      // a map whose contents are one composite literal (lookup table)
@@ -77,6 +79,7 @@ const (
 	c18OSearchIdx               // result of the binary search
 	c18OTableLen                // len(table)
 	c18ONodeLen                 // derived from len(receiver.Nodes)
+	c18OOtherKey                // the key of an unrelated witness tag (no rule, no constant of the code)
 )
 
 type c18Val struct {
@@ -88,6 +91,7 @@ type c18Val struct {
 	elems []c18Val
 	lit   *ast.FuncLit
 	fr    *c18Frame
+	ki    *c18KeyIndex
 	cl    *ast.CompositeLit // c18KMap: the literal that is the map's only source
 	fdecl *ast.FuncDecl     // c18KFuncDecl: a function of the package used as a value
 	note  string            // why the value is unknown
@@ -127,7 +131,10 @@ type c18Scen struct {
 	q      bool              // values[index] == value (only meaningful when !p)
 	// the witness list behind p and q: ll strictly ascending elements e0 < e1 < ...; rk of them are smaller than
 	// the value (the lower bound / sort.SearchStrings result); q says e[rk] == value. p is rk == ll.
-	ll, rk int64
+	ll, rk     int64
+	entryFirst bool // witness order: the tag under the entry's key comes before the tags with constant keys (`area`)
+	dup        bool // witness: a second tag with the entry's key and the value yes follows the first (Find ignores it)
+	empty      bool // the element has no tags at all (only with every modelled tag value absent); otherwise unrelated tags may exist
 }
 
 // member: element i of the witness list equals the value.
@@ -277,4 +284,5 @@ type c18Exec struct {
 	searches []c18SearchObs
 	reads    []c18ReadObs
 	loopSeen map[ast.Stmt]bool
+	keyIdx   map[types.Object]*c18KeyIndex
 }
